@@ -9,8 +9,8 @@ PID = "C06"
 MODULE, PKG, BIN = "aspen", "./verifh/c06", "c06"
 COQ_IMPORTS = "From Synnax Require Import Common.Base Aspen.KV Monitors.Mon_C06."
 CASE_TYPE = "case_t"
-COUNTS = {"quick": 480, "thorough": 16000}
-EXTRA_COUNTS = {"quick": 200, "thorough": 6000}
+COUNTS = {"quick": 480, "thorough": 12000}
+EXTRA_COUNTS = {"quick": 200, "thorough": 3000}
 SHARD = 60
 PROCS = 8
 HARNESS_TIMEOUT = 900
@@ -113,6 +113,12 @@ def life_op(rng, nodes, owner, mode):
             own = owner.setdefault(k, n)
             if rng.random() < 0.25:
                 return {"op": "del", "n": own, "k": k}
+            if n != own and rng.random() < 0.35:
+                # the creator writes, gossips to n, then n writes without a lease option: n holds the
+                # digest for sure, so the write must be forwarded to the creator
+                return [{"op": "write", "n": own, "k": k, "v": rng.randrange(1, 90), "lease": 0},
+                        {"op": "round", "i": own, "j": n, "late": rng.random() < 0.3},
+                        {"op": rng.choice(["write", "write", "del"]), "n": n, "k": k, "v": rng.randrange(1, 90), "lease": 0}]
             if n != own and rng.random() < 0.8:
                 # another node writes through the creator: explicit lease option
                 return {"op": "write", "n": n, "k": k, "v": rng.randrange(1, 90), "lease": own}
@@ -136,6 +142,14 @@ def life_op(rng, nodes, owner, mode):
     return {"op": "recover", "n": n, "p": p}
 
 
+def life_ops(rng, nodes, owner, mode, n):
+    out = []
+    for _ in range(n):
+        o = life_op(rng, nodes, owner, mode)
+        out += o if isinstance(o, list) else [o]
+    return out
+
+
 def sweeps(nodes, T, rng, skip=None):
     ops = []
     pairs = [(a, b) for a in nodes for b in nodes if a != b]
@@ -157,7 +171,7 @@ def gen_B(rng, quiesce=False, mode="one", nodes=None):
         nodes = [1, 2] if quiesce else rng.choice([[1, 2], [1, 2, 3], [1, 2, 3]])
     T = rng.choice([1, 1, 2])
     owner = {}
-    ops = [life_op(rng, nodes, owner, mode) for _ in range(rng.randrange(5, 16) if not quiesce else rng.randrange(3, 10))]
+    ops = life_ops(rng, nodes, owner, mode, rng.randrange(5, 16) if not quiesce else rng.randrange(3, 10))
     if quiesce:
         ops += sweeps(nodes, T, rng)
     elif len(nodes) > 2:
@@ -266,8 +280,7 @@ def gen_F(rng):
     T = rng.choice([1, 2])
     owner = {}
     ops = []
-    for _ in range(rng.randrange(2, 7)):
-        o = life_op(rng, nodes, owner, "one")
+    for o in life_ops(rng, nodes, owner, "one", rng.randrange(2, 7)):
         if o["op"] in ("write", "del", "round", "fball"):
             ops.append(o)
     n = rng.choice(nodes)
@@ -288,7 +301,7 @@ def gen_F(rng):
             own = owner.setdefault(k, rng.choice(peers))
             ops.append({"op": "write", "n": own, "k": k, "v": rng.randrange(1, 90), "lease": 0})
         else:
-            ops.append(life_op(rng, nodes, owner, "one"))
+            ops += life_ops(rng, nodes, owner, "one", 1)
     rng.shuffle(begun)
     for p in begun:
         ops.append({"op": "recend", "n": n, "p": p})
@@ -638,13 +651,35 @@ def extra(ctx):
     ctx.extra_cov["extra_phase_known_finding_space"] = cov
 
 
-PARTIAL = ("Proved in full: the resolution rule and order/duplication/batching independence of ingestion, never-older for "
-           "ingestion. Proved under the single-leaseholder invariant (one creator per key) and back-to-back recovery: "
-           "local writes and recovery are joins too. Refuted without them (known findings: leaseholder path and recovery "
-           "apply without consulting the digest). The quiescence clause is refuted as stated (restart drops the in-memory "
-           "gossip store; SIR stops after T+1 redundant feedbacks from any peers); what is proved is C06_quiescent_partial.")
-READY = False
-TECHNIQUE = "Coq proof (LWW join: permutation/duplication/batching independence by induction; LTS invariant) + model/impl correspondence by vm_compute"
+PARTIAL = ("never-older and same-set-same-state hold in full for gossip ingestion; for the leaseholder path and recovery they "
+           "are proved under one creator per key and back-to-back recovery and refuted without (known findings "
+           "F4-leasepath, F4-recovery); the quiescence clause is refuted as stated (three nodes: C06-sir; restart: "
+           "C06-restart; pinned upstream store on two nodes: F5, fixed) and proved for two nodes without restart "
+           "(C06_quiescent_two_nodes_partial)")
+READY = True
+TECHNIQUE = ("Coq proof (LWW join: order/duplication/batching independence by induction over operation lists; LTS invariant "
+             "over all step kinds; two-node quiescence invariant) + model/impl correspondence by vm_compute")
 DESIGN_REF = "DESIGN.md §8 C06"
-LEVEL_TEXT = "(under construction)"
-LEVEL_NOTE = "(under construction)"
+LEVEL_TEXT = ("Machine-checked Coq theorems over an executable Gallina copy of supersedes / filterPersist / versionAssigner+"
+              "persist / leaseAllocator / kvStore / operationClient+Server / feedback + gossipRecoveryTransform / "
+              "loadHighWater+recoverPeer+runSingleNodeRecovery: supersedes is the strict lexicographic (version, "
+              "leaseholder) order; ingestion yields the LWW maximum per key, so the same operation set in any order, "
+              "duplication and batching gives the identical engine (unbounded, C06_same_set_same_state), never replaces "
+              "an entry by an older one; over the cluster LTS (any number of nodes, all step kinds) no run with one "
+              "creator per key and back-to-back recovery ever moves any entry down (C06_never_older_partial) and the "
+              "unconditional applies are joins there; on two nodes every quiescent reachable state has identical engines "
+              "holding each leaseholder's latest write (C06_quiescent_two_nodes_partial). Unguarded statements are "
+              "refuted by concrete model runs that the harness replays on the real nodes in every run. The model is tied "
+              "to /repo on every run by driving real kv.Open pipelines step by step (deterministic delivery, marker "
+              "barriers, no sleeps) and comparing every node's engine (value+digest), version counter, gossip payload and "
+              "all feedback messages after every step inside Coq; a decidable monitor states the three clauses on the "
+              "implementation's observations only.")
+LEVEL_NOTE = ("Trusted: Coq kernel/vm_compute; hand-written model (tied by correspondence, not translation); harness driver + "
+              "hook (thin wrappers); generator. All theorems closed under the global context. Partial: see `partial`. F5 "
+              "(late feedback for an old version removed the new write from gossip) was found by this check and repaired "
+              "by a fix: commit. Four known findings stay listed (leaseholder path / recovery apply without consulting the "
+              "digest; restart drops the gossip store + single high-water mark; SIR stops before all peers on >=3 nodes); "
+              "their scripts run in a separate phase where each family may only produce its own codes, so any other "
+              "violation or any model/implementation mismatch is still reported. Not modelled: the window between lease "
+              "allocation and persist inside one DB.Set; multi-operation DB transactions; real timers / random peer choice "
+              "(the script chooses); relay-buffer drops.")
